@@ -646,6 +646,25 @@ namespace bloch::runtime {
         return {};
     }
 
+    // The language guide: "int values can widen to long in assignments and calls". A value bound
+    // to a long variable, field or parameter is therefore stored as a long, so that later
+    // arithmetic on it is 64-bit.
+    static void widenIntToLong(Value& v) {
+        if (v.type == Value::Type::Int) {
+            v.type = Value::Type::Long;
+            v.longValue = v.intValue;
+        }
+    }
+    static void widenLike(const Value& slot, Value& v) {
+        if (slot.type == Value::Type::Long)
+            widenIntToLong(v);
+    }
+    static void widenFor(const Type* declared, Value& v) {
+        if (auto prim = dynamic_cast<const PrimitiveType*>(declared))
+            if (prim->name == "long")
+                widenIntToLong(v);
+    }
+
     void RuntimeEvaluator::assign(const std::string& name, const Value& v) {
         for (size_t i = m_env.size(); i-- > m_frameBase;) {
             auto it = m_env.begin() + static_cast<std::ptrdiff_t>(i);
@@ -657,6 +676,7 @@ namespace bloch::runtime {
                     !fit->second.value.className.empty()) {
                     newVal.className = fit->second.value.className;
                 }
+                widenLike(fit->second.value, newVal);
                 fit->second.value = newVal;
                 fit->second.initialized = true;
                 return;
@@ -674,6 +694,7 @@ namespace bloch::runtime {
                         !existing.className.empty()) {
                         newVal.className = existing.className;
                     }
+                    widenLike(existing, newVal);
                     thisObj->fields[field->offset] = newVal;
                     return;
                 }
@@ -686,6 +707,7 @@ namespace bloch::runtime {
                     newVal.objectValue && !existing.className.empty()) {
                     newVal.className = existing.className;
                 }
+                widenLike(existing, newVal);
                 owner->staticStorage[field->offset] = newVal;
                 return;
             }
@@ -1258,6 +1280,7 @@ namespace bloch::runtime {
                 beginScope();
                 Value v = eval(field.initializer);
                 endScope();
+                widenLike(cls->staticStorage[i], v);
                 cls->staticStorage[i] = v;
             }
             m_inStaticContext = prevStatic;
@@ -1524,6 +1547,7 @@ namespace bloch::runtime {
                 thisVal.className = cls->name;
                 m_env.back()["this"] = {thisVal, false, true};
                 Value init = eval(field.initializer);
+                widenLike(slot, init);
                 slot = init;
                 endScope();
                 m_currentClassCtx = prevClass;
@@ -1563,7 +1587,9 @@ namespace bloch::runtime {
         thisVal.className = cls->name;
         m_env.back()["this"] = {thisVal, false, true};
         for (size_t i = 0; ctor && i < ctor->params.size() && i < args.size(); ++i) {
-            m_env.back()[ctor->params[i]->name] = {args[i], false, true};
+            Value arg = args[i];
+            widenFor(ctor->params[i]->type.get(), arg);
+            m_env.back()[ctor->params[i]->name] = {arg, false, true};
         }
 
         // Detect an explicit super(...) call as the first statement.
@@ -1650,7 +1676,9 @@ namespace bloch::runtime {
                 const auto& param = ctor->params[i];
                 auto fieldMeta = findInstanceField(cls, param->name);
                 if (fieldMeta && fieldMeta->offset < obj->fields.size()) {
-                    obj->fields[fieldMeta->offset] = args[i];
+                    Value arg = args[i];
+                    widenLike(obj->fields[fieldMeta->offset], arg);
+                    obj->fields[fieldMeta->offset] = arg;
                 }
             }
         }
@@ -1707,7 +1735,9 @@ namespace bloch::runtime {
         }
         m_returnValue = {};
         for (size_t i = 0; i < method->decl->params.size() && i < args.size(); ++i) {
-            m_env.back()[method->decl->params[i]->name] = {args[i], false, true};
+            Value arg = args[i];
+            widenFor(method->decl->params[i]->type.get(), arg);
+            m_env.back()[method->decl->params[i]->name] = {arg, false, true};
         }
         bool prevReturn = m_hasReturn;
         m_hasReturn = false;
@@ -1736,7 +1766,9 @@ namespace bloch::runtime {
         FrameBaseGuard frame(m_frameBase, m_env.size());
         beginScope();
         for (size_t i = 0; i < fn->params.size() && i < args.size(); ++i) {
-            m_env.back()[fn->params[i]->name] = {args[i], false, true};
+            Value arg = args[i];
+            widenFor(fn->params[i]->type.get(), arg);
+            m_env.back()[fn->params[i]->name] = {arg, false, true};
         }
         bool prevReturn = m_hasReturn;
         m_returnValue = {};
@@ -1998,6 +2030,7 @@ namespace bloch::runtime {
                     initialized = true;
                 }
             }
+            widenFor(var->varType.get(), v);
             m_env.back()[var->name] = {v, var->isTracked, initialized};
         } else if (auto block = dynamic_cast<BlockStatement*>(s)) {
             beginScope();
@@ -3154,20 +3187,26 @@ namespace bloch::runtime {
                         ? findInstanceField(obj.objectValue->cls, memAssign->member)
                         : nullptr;
                 if (instField) {
-                    if (instField->offset < obj.objectValue->fields.size())
+                    if (instField->offset < obj.objectValue->fields.size()) {
+                        widenLike(obj.objectValue->fields[instField->offset], rhs);
                         obj.objectValue->fields[instField->offset] = rhs;
+                    }
                 } else {
                     auto [staticField, owner] =
                         obj.objectValue->cls
                             ? findStaticFieldWithOwner(obj.objectValue->cls, memAssign->member)
                             : std::pair<RuntimeField*, RuntimeClass*>{nullptr, nullptr};
-                    if (staticField && owner && staticField->offset < owner->staticStorage.size())
+                    if (staticField && owner && staticField->offset < owner->staticStorage.size()) {
+                        widenLike(owner->staticStorage[staticField->offset], rhs);
                         owner->staticStorage[staticField->offset] = rhs;
+                    }
                 }
             } else if (obj.type == Value::Type::ClassRef && obj.classRef) {
                 auto [field, owner] = findStaticFieldWithOwner(obj.classRef, memAssign->member);
-                if (field && owner && field->offset < owner->staticStorage.size())
+                if (field && owner && field->offset < owner->staticStorage.size()) {
+                    widenLike(owner->staticStorage[field->offset], rhs);
                     owner->staticStorage[field->offset] = rhs;
+                }
             }
             return rhs;
         } else if (auto aassign = dynamic_cast<ArrayAssignmentExpression*>(e)) {
